@@ -54,7 +54,8 @@ Qed.
 (* ---- strings ---- *)
 Lemma write_read_short_bytes b w r : write_short_bytes b = Ok w -> read_short_bytes (w ++ r) = Ok (Some b, r).
 Proof.
-  unfold write_short_bytes. destruct (32767 <? len b) eqn:E; [discriminate|]. intros [= <-].
+  unfold write_short_bytes. destruct (32767 <? len b) eqn:E; [discriminate|]. intro H.
+  assert (Hw : w = enc_i16 (len b) ++ b) by congruence. subst w. clear H.
   unfold read_short_bytes. rewrite <- app_assoc, rd_enc_i16.
   - cbn [bind]. pose proof (len_nonneg b). destruct (len b =? -1) eqn:E1; [lia|]. destruct (len b <? -1) eqn:E2; [lia|].
     rewrite len_app. pose proof (len_nonneg r). destruct (len b + len r <? len b) eqn:E3; [lia|].
